@@ -235,7 +235,7 @@ pub fn spec() -> Spec<Case> {
         id: "C19",
         level: "exploration",
         rule: "(sessions 0 and 1 are two conversations of the same tool and model; every commit whose note attests a plainly named file is queried a second time with `--ignore <that file>`) every commit (root, ordinary, merge, rewritten) of generated histories (<=24 ops) enriched with default-ignored files (*.lock, Cargo.lock, *.min.js, *.generated.*), a binary file, pure deletions, several sessions per file and AI lines a person overrides before the commit. `git-ai stats <sha> --json` is compared with independent computations: added/deleted = sums over `git show --numstat -z --no-renames` minus ignored paths; ai_accepted = |lines the commit adds (own -U0 diff parse) intersect lines its note lists (own parser)|; human + accepted = added; ai_additions = accepted + mixed <= added; per-tool sums equal the totals for every field. non-trivial = commit whose note lists >=2 sessions, or touches an ignored/binary file together with AI lines, or is a root/merge commit; distinct by case hash".into(),
-        cases_quick: 154,
+        cases_quick: 336,
         cases_thorough: 2500,
         shrink_iters: 30,
         workers: 14,
